@@ -441,11 +441,21 @@ Definition glue_cookie (k : string) (a o : list value) : option verdict :=
     | _ => None end
   else if is k "ck.crypt" then
     match a, o with
-    | [VZ algo; VB s2c; VB c2s; VB key; VZ keyid], [VZ ok; VZ algo'; VB s2c'; VB c2s'; VZ id] =>
-        (* encrypt, encode, decode, decrypt gives the cookie back; the key id is carried as uint16 *)
-        (* AES-CMAC-SIV keys are 32 or 64 bytes *)
-        let good := negb ((length key =? 32)%nat || (length key =? 64)%nat) || zb ok && (algo =? algo') && bl_eqb s2c s2c' && bl_eqb c2s c2s' && (id =? u16 keyid) in
+    | [VZ algo; VB s2c; VB c2s; VB key; VZ keyid; VB wrong],
+      [VZ refused; VZ ok; VZ algo'; VB s2c'; VB c2s'; VZ id; VZ again; VZ reenc; VZ intact] =>
+        (* AES-CMAC-SIV keys are 32 or 64 bytes.  One encoded cookie, decoded and decrypted from the
+           same bytes under a wrong key, the right key and the right key again: the wrong key is
+           refused, the right key gives the cookie back both times (the key id carried as uint16),
+           the decoded value encodes to the bytes it came from, and those bytes are never modified *)
+        let good := negb ((length key =? 32)%nat || (length key =? 64)%nat) ||
+                    (zb refused || bl_eqb key wrong) && zb ok && (algo =? algo') && bl_eqb s2c s2c' && bl_eqb c2s c2s'
+                    && (id =? u16 keyid) && zb again && zb reenc && zb intact in
         Some (relational good good)
+    | _, _ => None end
+  else if is k "dec.input" then
+    (* no decoder of the project modifies the bytes it is given *)
+    match a, o with
+    | [VZ _; VB input; VB _], [VB after] => Some (functional [VB input] o (bl_eqb input after))
     | _, _ => None end
   else None.
 
